@@ -91,6 +91,10 @@ def save_xye(
     to_save = np.c_[da.coords[coord].values, da.values, np.sqrt(da.variances)]
     if header is GenerateHeader:
         header = _generate_xye_header(da, coord)
+    # np.savetxt only inserts the comment prefix after '\n'. Readers that use universal
+    # newlines also end a line at '\r', so normalize all line endings to keep every
+    # header line behind the prefix.
+    header = header.replace('\r\n', '\n').replace('\r', '\n')
 
     get_logger().info(
         "Saving data with unit %s and coordinate '%s' to XYE file %s",
